@@ -62,7 +62,7 @@ def recipe(name, H, cls, tmpdir):
         "edge_neighborhood": [((n0,), {}), ((n0,), {"include_self": True})],
         "node_connected_component": [((n0,), {})],
         "single_source_shortest_path_length": [((n0,), {})],
-        "node_swap": [((n0, n1), {})],
+        "node_swap": [((n0, n1), {}), ((n0, n1), {"order": 1}), ((n0, n1), {"order": 2}), ((n1, n0), {"order": 0})],
         "shuffle_hyperedges": [((1, 0.7), {"seed": 1})],
         "multiorder_laplacian": [(([1, 2], [1, 1]), {})],
         "simulate_kuramoto": [((1, 1), {"n_steps": 5})],
@@ -178,6 +178,11 @@ def networks(cls, g, shapes, rng, frozen):
             H.set_node_attributes(1, name="color")
             for e in list(H.edges)[:1]:
                 H.edges[e]["wt"] = [5]
+            # values that some converters might be tempted to "normalise" in place
+            for e in list(H.edges)[1:2]:
+                H.edges[e]["mult"] = {1, 2}
+            for n in list(H.nodes)[:1]:
+                H.nodes[n]["mult"] = frozenset({3})
         elif cls == "SC":
             H = xgi.SimplicialComplex()
             H.add_nodes_from([g.node(n) for n in j["nodes"]])
@@ -265,11 +270,16 @@ def run(tier, seed_):
     rng = random.Random(seed_)
     # stratified: empty, isolated nodes + empty edge + duplicates, connected with nested edges, larger ones
     interesting = [j for j in shapes if len(j["nodes"]) >= 3 and len(j["edges"]) >= 2]
+    # strata that read-only code is most likely to "tidy up": empty edges, isolated nodes, repeated edges
+    def stratum(j):
+        return (any(not m for m in j["e2n"]), any(not es for es in j["n2e"]),
+                len({tuple(m) for m in j["e2n"]}) < len(j["e2n"]))
+    special = [j for j in interesting if all(stratum(j))] or interesting
     jobs = []
     base = 0
     for cls in ("H", "SC", "DH"):
         for k in range(b["per_class"]):
-            pick = [rng.choice(interesting)] + ([rng.choice(shapes)] if k % 2 else [])
+            pick = [rng.choice(special if k % 2 == 0 else interesting)] + ([rng.choice(shapes)] if k % 2 else [])
             jobs.append((cls, nets.FAMS[k % len(nets.FAMS)], pick, seed_ + k, k % 3 == 2, base))
             base += 10
     recs, called, raised, timeouts = [], {}, {}, []
